@@ -653,6 +653,11 @@ impl<'a> Explorable for Model<'a> {
             }
             // re-submitting the same version as an update must be a no-op on the answers
             ops.push(Op::ChangeSet(vec![], vec![*u], vec![]));
+            // one change-set that deletes an id AND brings a version of it (removals are applied first: the new version is live)
+            ops.push(Op::ChangeSet(vec![*u], vec![], vec![id.clone()]));
+            if let Some(alt) = variants_of(id, *u).first() {
+                ops.push(Op::ChangeSet(vec![], vec![*alt], vec![id.clone()]));
+            }
         }
         if let Some(a) = first_absent {
             if let Some(first_live) = live_ids.first() {
